@@ -126,7 +126,7 @@ Definition holds_split (c : case) (t : tref) : bool :=
 (* 3. every nested package path is replaced by that package's import name (the target package's by
       nothing), exactly the other packages are registered, nothing else changes *)
 Definition ren (self : bytes) (names : list (bytes * bytes)) (q : bytes) : bytes :=
-  if is_nil q then [] else if bytes_eqb q self then [] else assoc q names.
+  ren_paths (fun p => assoc p names) self q.
 
 Definition holds_render (c : case) (t : tref) : bool :=
   let self := c_self c in
